@@ -258,8 +258,15 @@ def lean_str(s):
     return ''.join(out)
 
 
-def sample(ast, rng, maxrep=3):
-    """a random string matched by the AST (anchors give nothing); classes draw from their own ranges"""
+def sample(ast, rng, maxrep=3, minimal=False):
+    """a random string matched by the AST (anchors give nothing); classes draw from their own ranges.
+    `minimal`: every repetition at its lower bound (a star matches nothing, an optional part is absent)"""
+    if minimal:
+        class _Min:
+            def randint(self, a, b): return a
+            def random(self): return 0.99
+            def choice(self, xs): return rng.choice(xs)
+        return sample(ast, _Min(), maxrep)
     t = ast[0]
     if t == 'eps' or t in ('bol', 'eol'):
         return ''
